@@ -189,6 +189,24 @@ VARIANTS = [
     V("c16-wrong-shell-base", [("src/main.rs", "Shell::Fish => fish::ARRAY_START,", "Shell::Fish => bash::ARRAY_START,")], {"C16": "ARMS:main::aot:Fish"}),
     V("c16-unbalanced-cluster", [("src/dfa.rs", '        writeln!(output, "{indentation}}}")?;\n    }\n\n    for (from, tos) in &dfa.transitions {', '    }\n\n    for (from, tos) in &dfa.transitions {')], {"C16": "BAL:dfa::do_to_dot"}),
     V("c16-extra-label-benign", [("src/dfa.rs", 'writeln!(output, "{indentation}\\tcolor=grey91;")?;', 'writeln!(output, "{indentation}\\tcolor=grey92;")?;')], {"C16": None}),
+    # ---------------- C12
+    V("seed-C12-m1-iterate-state-keys", [("@patch", "seeded/C12-m1/patch.diff")], {"C12": "SK-SUB:S1"}),
+    V("seed-C12-m2-described-first-resort", [("@patch", "seeded/C12-m2/patch.diff")], {"C12": "SORTLEN:dfa::DFA::get_top_level_literals_decreasing_length:order"}),
+    V("seed-C12-m3-matchfn-length-prefilter", [("@patch", "seeded/C12-m3/patch.diff")], {"C12": "SK-MATCHFN"}),
+    V("revert-77bb90d-prefix-exit-in-matches-mode", [("@revert", "77bb90d")], {"C12": "SK-SUB:S2:prefix-exit-not-in-matches-mode"}),
+    V("c12-zsh-only-loses-mode-guard", [("src/zsh.rs", """if [[ $mode != matches && $literal == $subword* && -v "state_transitions[$literal_id]" ]]; then""", """if [[ $literal == $subword* && -v "state_transitions[$literal_id]" ]]; then""")], {"C12": "SIBLINGS:zsh:prefix-exit-not-in-matches-mode"}),
+    V("c12-no-reverse", [("src/dfa.rs", "        result.reverse();\n        result\n", "        result\n")], {"C12": "SORTLEN"}),
+    V("c12-descending-comparator-benign", [("src/dfa.rs", """            (left.len(), left).cmp(&(right.len(), right))
+        });
+        result.reverse();""", """            (right.len(), right).cmp(&(left.len(), left))
+        });""")], {"C12": None}),
+    V("c12-ids-reversed", [("src/dfa.rs", """        self.get_top_level_literals_decreasing_length()
+            .into_iter()
+            .enumerate()""", """        self.get_top_level_literals_decreasing_length()
+            .into_iter()
+            .rev()
+            .enumerate()""")], {"C12": "SORTLEN:dfa::DFA::get_all_literals"}),
+    V("c12-consume-before-equal-benign", [("src/bash.rs", "char_index=$((char_index + ${{#literal}}))\n                    continue 2\n                fi\n                if [[ $mode != matches", "char_index=$(( char_index + ${{#literal}} ))\n                    continue 2\n                fi\n                if [[ $mode != matches")], {"C12": None}),
     # ---------------- C10
     V("c10-std-hashset-in-dfa", [("src/dfa.rs", "use hashbrown::{HashMap, HashSet};", "use hashbrown::HashMap;\nuse std::collections::HashSet;")], {"C10": "HASHORD:dfa::dfa_from_regex"}),
     V("c10-env-var", [("src/lib.rs", '    let version = env!("COMPLGEN_VERSION");', '    let version = std::env::var("COMPLGEN_VERSION").unwrap_or_default();')], {"C10": "AMBIENT:signature"}),
